@@ -387,6 +387,10 @@ class MPNLRICollection:
                         raise RuntimeError('NLRI too large for attribute size limit')
                     # Yield current payload and start new one
                     yield self._attribute_header(self._CODE_MP_REACH_NLRI, len(payload)) + payload
+                    if self._attr_len(header_length + len(packed_nlri)) > maximum:
+                        # does not fit an attribute of its own: it can not be sent at all
+                        payload = header
+                        continue
                     payload = header + packed_nlri
                 else:
                     payload = payload + packed_nlri
@@ -435,6 +439,10 @@ class MPNLRICollection:
                     raise RuntimeError('NLRI too large for attribute size limit')
                 # Yield current payload and start new one
                 yield self._attribute_header(self._CODE_MP_UNREACH_NLRI, len(payload)) + payload
+                if self._attr_len(header_length + len(packed_nlri)) > maximum:
+                    # does not fit an attribute of its own: it can not be sent at all
+                    payload = header
+                    continue
                 payload = header + packed_nlri
             else:
                 payload = payload + packed_nlri
